@@ -58,6 +58,13 @@ def gen_cases(rng, tier):
                 cfg['T'] = max(cfg['T'], 2)
             if cfg['time_order'].get('abs') is not None:
                 cfg['time_order'] = {'key': cfg['time_order']['key'], 'abs': None}
+        if defect == 'pos_swap':
+            cfg = L.rand_config(rng, tier, want=rng.choice(['time', 'timevec']))
+            cfg['S'] = max(cfg['S'], rng.choice([2, 3]))
+            cfg['T'] = max(cfg['T'], 2)
+            key = cfg['time_order']['key']
+            cfg['time_order'] = {'key': key, 'abs': None}
+            cfg['tagrules'][key] = rng.choice(['t', 'trev'])
         if defect == 'bad_ordinate':
             cfg = L.rand_config(rng, tier, want=rng.choice(['time', 'timevec']), force_abs=True)
         if defect == 'tie_straddle' and (cfg['mode'] != 'guess' or cfg['S'] < 2 or cfg['T'] < 2):
